@@ -72,8 +72,12 @@ def standard_post(ctx, st, want_struct=True):
         ctx.same_tree = True
         return post, ctx.view, ctx.it, None
     v = View(inst, tree)
-    if v.n != ctx.view.n and not ctx.allow_growth:
-        post.append(('C11:buffer-len-unchanged', FALSE))
+    if v.n != ctx.view.n:
+        # the arena grows only inside get_free_index with an empty free list (every slot in use), by the free list's capacity
+        ok = ctx.allow_growth and v.n == ctx.view.n + (ctx.N - 1)
+        post.append(('C11:growth-only-when-full-by-free-list-capacity', TRUE if ok else FALSE))
+    elif ctx.allow_growth:
+        post.append(('C11:growth-only-when-full-by-free-list-capacity', FALSE))
     G, it, extra = inv_closed(v)
     post.append(('C02:inv', conj(G, STRUCT)))
     post.append(('C11:accounting', conj(G, ['accounting'])))
